@@ -502,7 +502,7 @@ def job_soundness(tier, rng, which, shape):
         asg = {A[idx]: sp.Float(An[idx].real, 30) + sp.I * sp.Float(An[idx].imag, 30) for idx in np.ndindex(*gshape)}
         Rs = np.array([complex(sp.N(sp.sympify(e).subs(asg), 20)) for e in R.ravel()]).reshape(R.shape)
         if Rs.shape != Rn.shape or np.abs(Rs - Rn).max() > 1e-9 * max(1.0, np.abs(Rn).max()):
-            return [ob(f'{base}.crosscheck[{sh}]', 'fault', functions=funcs, tier='P', backend='sympy', detail='symbolic rows differ from the natively recorded rows (engine unsound here)')]
+            return [ob(f'{base}.crosscheck[{sh}]', 'undecided', engine_suspect=True, functions=funcs, tier='P', backend='sympy', detail='ENGINE-SUSPECT: symbolic rows differ from the natively recorded rows (the symbolic execution does not follow this version of the code, e.g. in-place updates through views); the bounded planted instances decide')]
         if np.abs(Mn - Rn @ Rn.conj().T).max() > 1e-9 * max(1.0, np.abs(Mn).max()):
             return [ob(f'{base}.matrix_handed_to_LU_is_rows_times_rows_dagger[{sh}]', 'refuted', functions=funcs, tier='P', backend='native', witness=dict(kind='gram', generators=_enc(An), which=which, r=r, k=k),
                        native=dict(confirmed=True), detail='natively, the matrix handed to scipy.linalg.lu differs from rows.rows^dagger')]
@@ -730,7 +730,7 @@ def job_charts(tier, rng, cls, m, n):
                     sub[B[0, j]] = sp.Float(float(np.real(Bn[0, j])), 30)
             Ts = np.array([complex(sp.N(ex(e).subs(sub), 20)) for e in basis[0].ravel()]).reshape(basis[0].shape)
             if Ts.shape != np.asarray(basisn)[0].shape or np.abs(Ts - np.asarray(basisn)[0]).max() > 1e-9:
-                return [ob(f'{base}.crosscheck[{sh}]', 'fault', functions=funcs, tier='P', backend='sympy', detail='symbolic chart differs from the native run (engine unsound here)')]
+                return [ob(f'{base}.crosscheck[{sh}]', 'undecided', engine_suspect=True, functions=funcs, tier='P', backend='sympy', detail='ENGINE-SUSPECT: symbolic chart differs from the native run; the bounded decomposition job decides')]
             nx = 1
         else:
             nx = 0
